@@ -636,6 +636,29 @@ func Fixed() []*Spec {
 		Prec:  []PrecLine{{"left", []string{"right"}}},
 		Rules: rules("S: S left NUM | S right NUM | S prec NUM | NUM"),
 		NTTag: allVal("S")})
+	// right-recursive list with the base alternative first: a goto target gets a second kernel
+	// item whose closure must still be added
+	add(&Spec{Name: "rlist_basefirst", Tags: []string{"lalr1"},
+		Toks:  []Tok{litV('a'), litV('b')},
+		Rules: rules("L: I | I L", "I: 'a' | 'b'"),
+		NTTag: allVal("L", "I")})
+	// two transitions with empty own sets whose first successor is the same three-element follow
+	// set, each getting one more token afterwards (sets must not share storage)
+	add(&Spec{Name: "alias_follow", Tags: []string{"lalr1"},
+		Toks:  []Tok{lit('a'), lit('b'), lit('c'), lit('d'), lit('e'), lit('x'), lit('y'), lit('q'), lit('r')},
+		Rules: rules("S: B 'a' | B 'b' | B 'c' | D 'd' | F 'e'", "B: 'x' A | 'y' C", "D: 'x' A", "F: 'y' C", "A: 'q'", "C: 'r'")})
+	// an includes-cycle through three nonterminals (mutual right recursion), entered from three
+	// contexts at three different members, plus reductions that depend on one member only
+	add(&Spec{Name: "scc_cycle", Tags: []string{"lalr1"},
+		Toks:  []Tok{lit('p'), lit('q'), lit('r'), lit('u'), lit('w'), lit('v'), lit('('), lit('['), lit('x'), lit('y'), lit('z'), lit('a'), lit('b'), lit('c')},
+		Rules: rules("S: RA 'p' | '(' RB 'q' | '[' RC 'r' | 'a' 'u' | '(' 'b' 'w' | '[' 'c' 'v'", "RA: 'x' RB | 'a'", "RB: 'y' RC | 'b'", "RC: 'z' RA | 'c'"),
+		NTTag: allVal("S", "RA", "RB", "RC")})
+	// a literal token that means something to fmt (the modulo operator)
+	add(&Spec{Name: "mod_op", Tags: []string{"conflict-resolved"},
+		Toks:  []Tok{named("NUM", 390), {Char: '%', Decl: "prec"}, {Char: '+', Decl: "prec"}},
+		Prec:  []PrecLine{{"left", []string{"'+'"}}, {"left", []string{"'%'"}}},
+		Rules: rules("E: E '%' E | E '+' E | NUM"),
+		NTTag: allVal("E")})
 	// names that differ only in case; automatic token numbers
 	add(&Spec{Name: "case_names", Tags: []string{"lalr1"},
 		Toks:  []Tok{named("NUM", 0), named("List", 0), lit(',')},
